@@ -159,6 +159,63 @@ RegLaws<dim2, Order::documented, true> const r_dim2{{
     .hashes = {{"std::hash", [](dim2 const &v) { return std::hash<dim2>{}(v); }}, {"fcppt::hash", [](dim2 const &v) { return fcppt::hash(v); }}},
     .equalities = {}}};
 
+// ---------------------------------------------------------------- floating-point element types
+// Components {-0.0, +0.0, 1.0, 2.0}: the two zeros are equal values of the element type (observable
+// component 0), so the composite values must be equal and hash alike - std::hash<double> itself
+// guarantees this for its argument.
+double fcomp(int i) { return i == 3 ? -0.0 : static_cast<double>(i); }
+i64 fobs(double d) { return static_cast<i64>(d); }
+using ddim2 = fm::dim::static_<double, 2>;
+using dvec2 = fm::vector::static_<double, 2>;
+using dmat22 = fm::matrix::static_<double, 2, 2>;
+
+RegLaws<ddim2, Order::documented, true> const r_ddim2{{
+    .name = "math::dim<double,2>",
+    .build =
+        [](Entries<ddim2> &e) {
+          for (int a = 0; a < 4; ++a)
+            for (int b = 0; b < 4; ++b)
+              put(e, ddim2{fcomp(a), fcomp(b)}, (a == 3 || b == 3) ? 9 : 0,
+                  std::string("dim(") + (a == 3 ? "-0.0" : s(a)) + "," + (b == 3 ? "-0.0" : s(b)) + ")");
+          put(e, fm::dim::null<ddim2>(), 1, "null()");
+          put(e, ddim2{1.0, 0.0} * -0.0, 3, "dim(1,0)*-0.0");
+        },
+    .obs = [](ddim2 const &v) { return Ints{fobs(v.w()), fobs(v.h())}; },
+    .key = {},
+    .hashes = {{"std::hash", [](ddim2 const &v) { return std::hash<ddim2>{}(v); }}, {"fcppt::hash", [](ddim2 const &v) { return fcppt::hash(v); }}},
+    .equalities = {}}};
+
+RegLaws<dvec2, Order::documented, true> const r_dvec2{{
+    .name = "math::vector<double,2>",
+    .build =
+        [](Entries<dvec2> &e) {
+          for (int a = 0; a < 4; ++a)
+            for (int b = 0; b < 4; ++b)
+              put(e, dvec2{fcomp(a), fcomp(b)}, (a == 3 || b == 3) ? 9 : 0,
+                  std::string("vector(") + (a == 3 ? "-0.0" : s(a)) + "," + (b == 3 ? "-0.0" : s(b)) + ")");
+          put(e, fm::vector::null<dvec2>(), 1, "null()");
+          put(e, -dvec2{0.0, 2.0}, 3, "-vector(0,2) negated back");
+        },
+    .obs = [](dvec2 const &v) { return Ints{fobs(v.x()), fobs(v.y())}; },
+    .key = {},
+    .hashes = {{"std::hash", [](dvec2 const &v) { return std::hash<dvec2>{}(v); }}, {"fcppt::hash", [](dvec2 const &v) { return fcppt::hash(v); }}},
+    .equalities = {}}};
+
+RegLaws<dmat22, Order::none, false> const r_dmat22{{
+    .name = "math::matrix<double,2,2>",
+    .build =
+        [](Entries<dmat22> &e) {
+          for (int a = 0; a < 4; ++a)
+            for (int b = 0; b < 4; ++b)
+              for (int c = 0; c < 4; c += 3)
+                put(e, dmat22{fm::matrix::row(fcomp(a), fcomp(c)), fm::matrix::row(fcomp(c), fcomp(b))}, (a == 3 || b == 3 || c == 3) ? 9 : 0,
+                    "matrix((" + s(a) + "," + s(c) + "),(" + s(c) + "," + s(b) + ")) with 3 standing for -0.0");
+        },
+    .obs = [](dmat22 const &m) { return Ints{fobs(m.m00()), fobs(m.m01()), fobs(m.m10()), fobs(m.m11())}; },
+    .key = {},
+    .hashes = {{"std::hash", [](dmat22 const &v) { return std::hash<dmat22>{}(v); }}, {"fcppt::hash", [](dmat22 const &v) { return fcppt::hash(v); }}},
+    .equalities = {}}};
+
 // ---------------------------------------------------------------- matrix<int,2,2>
 RegLaws<mat22, Order::none, false> const r_mat22{{
     .name = "math::matrix<int,2,2>",
